@@ -19,7 +19,7 @@ func c18Round3(c *Ctx) {
 		n := 0
 		ok := true
 		site := c.P.Pos(fn.Pos())
-		for _, b := range fn.Blocks {
+		for _, b := range blocksIP(fn) {
 			for _, in := range b.Instrs {
 				sl, isSl := in.(*ssa.Slice)
 				if !isSl || !strings.HasSuffix(vstr(sl.X), ".TDXComponents") {
@@ -77,7 +77,7 @@ func c18Round3(c *Ctx) {
 			at     ssa.Instruction
 		}
 		allocs := map[*ssa.Alloc]*acc{}
-		for _, b := range fn.Blocks {
+		for _, b := range blocksIP(fn) {
 			for _, in := range b.Instrs {
 				st, ok := in.(*ssa.Store)
 				if !ok {
